@@ -491,4 +491,32 @@ def T_condtemp(src):
     return _apply(src, _CondTemp)
 
 
-ALL = {"log-lines": T_log, "unused-local": T_nooplocal, "add-docstrings": T_docstring, "mirror-comparisons": T_mirror, "pass": T_pass, "const-swap": T_const, "if-not": T_ifnot, "return-temp": T_rettmp, "kwargs-order": T_kwargs, "rename-locals": T_rename, "augassign-expanded": T_augexpand, "elif-as-nested-if": T_elifnest, "in-tuple-vs-list": T_tuplelist, "ternary-as-if": T_ternary, "else-after-exit": T_elseafterexit, "argument-temp": T_argtemp, "swap-independent-assignments": T_swapindependent, "condition-temp": T_condtemp}
+
+class _GuardContinue(ast.NodeTransformer):
+    """for x in xs:                      for x in xs:
+           ...                 ->            ...
+           if c: body                        if not c: continue
+                                             body
+    (the trailing `if` without else of a loop body written as a guard; the early-`continue` style many code bases prefer)"""
+    n = 0
+
+    def _loop(self, node):
+        self.generic_visit(node)
+        b = node.body
+        if b and isinstance(b[-1], ast.If) and not b[-1].orelse and len(b[-1].body) >= 1 and not isinstance(b[-1].test, ast.NamedExpr) \
+                and not any(isinstance(x, (ast.FunctionDef, ast.ClassDef)) for x in b[-1].body):
+            last = b[-1]
+            guard = ast.copy_location(ast.If(test=ast.UnaryOp(op=ast.Not(), operand=last.test), body=[ast.copy_location(ast.Continue(), last)], orelse=[]), last)
+            node.body = b[:-1] + [guard] + last.body
+            self.n += 1
+        return node
+
+    visit_For = _loop
+    visit_While = _loop
+
+
+def T_guardcontinue(src):
+    return _apply(src, _GuardContinue)
+
+
+ALL = {"log-lines": T_log, "unused-local": T_nooplocal, "add-docstrings": T_docstring, "mirror-comparisons": T_mirror, "pass": T_pass, "const-swap": T_const, "if-not": T_ifnot, "return-temp": T_rettmp, "kwargs-order": T_kwargs, "rename-locals": T_rename, "augassign-expanded": T_augexpand, "elif-as-nested-if": T_elifnest, "in-tuple-vs-list": T_tuplelist, "ternary-as-if": T_ternary, "else-after-exit": T_elseafterexit, "argument-temp": T_argtemp, "swap-independent-assignments": T_swapindependent, "condition-temp": T_condtemp, "guard-continue": T_guardcontinue}
